@@ -291,6 +291,11 @@ def _builtin(ex, st, c, callee, args, fn):
             r = call_closure(ex, st.fork(), callee, args[2], [v.p['Some'].f[0]])
             if r is not None:
                 return ite(d == 1, r[1], args[1])
+        if k == 'filter' and len(args) == 2 and 'Some' in v.p:
+            st2 = st.fork(); st2.mem[('clo', 'filter_arg')] = v.p['Some'].f[0]
+            r = call_closure(ex, st2, callee, args[1], [Ref('clo', 'filter_arg')])
+            if r is not None and isinstance(r[1], z3.ExprRef) and z3.is_bool(r[1]):
+                return Enum(z3.If(z3.And(d == 1, r[1]), z3.IntVal(1), z3.IntVal(0)), {'Some': v.p['Some'], 'None': UNIT})
         if k == 'map' and len(args) == 2 and 'Some' in v.p:
             r = call_closure(ex, st.fork(), callee, args[1], [v.p['Some'].f[0]])
             if r is not None:
